@@ -16,7 +16,10 @@ def op_term(op):
 
 
 def knum(s):
-    return int(s[1:])
+    """harness key "k<n>" -> n; anything else (e.g. a key the wrapper failed to prefix) -> a key no model state holds"""
+    import re
+    m = re.fullmatch(r"k(\d+)", s)
+    return int(m.group(1)) if m else 999999
 
 
 def state_term(st):
